@@ -16,7 +16,9 @@ def runs_for(tier, seed, emit):
     else:
         base_stride, holes_stride = 3, 2
     runs = [("base", dict(N=2, Profile="base", Stride=base_stride, Offset=seed % base_stride, Emit=emit)),
-            ("holes", dict(N=3, Profile="holes", Stride=holes_stride, Offset=seed % holes_stride, Emit=emit))]
+            ("holes", dict(N=3, Profile="holes", Stride=holes_stride, Offset=seed % holes_stride, Emit=emit)),
+            # operands with 10 - 50 segments (multi-level segment R-trees); 22 x 22 pairs
+            ("big", dict(N=10, Profile="big", Stride=2 if tier == "quick" else 1, Offset=seed % 2 if tier == "quick" else 0, Emit=emit))]
     return runs
 
 
@@ -41,7 +43,7 @@ def run(pid, tier, seed, t0, emits, level_rule):
     for emit in emits:
         for name, consts in runs_for(tier, seed, emit):
             res, n, mism, summ = vf.gen_and_replay("%s_%s_%s" % (pid, name, emit), "Gen_Relate", consts, [pid], seed,
-                                                   invariants=["OracleSane", "ShortcutRefines"], timeout=3000 if tier == "thorough" else 900)
+                                                   invariants=["OracleSane", "ShortcutRefines", "UniverseOK"], timeout=3000 if tier == "thorough" else 900)
             runs.append(res)
             ncases += n
             mism_all += mism
